@@ -8,19 +8,53 @@ package stats
 //vx:overlay internal/stats/zz_vx_c05.go
 //vx:entry vxC05Stats reach=guarded-access
 //vx:stub (*github.com/AdguardTeam/AdGuardHome/internal/aghnet.IgnoreEngine).Has vxC05IgnoreHas
+//vx:stub (*encoding/json.Decoder).Decode vxC05SJSONDecode
+//vx:stub github.com/AdguardTeam/AdGuardHome/internal/aghhttp.WriteJSONResponse vxC05SWriteJSON
+//vx:stub github.com/AdguardTeam/AdGuardHome/internal/aghnet.NewIgnoreEngine vxC05SNewIgnore
+//vx:stub os.Remove vxC05SRemove
+//vx:stub (*github.com/AdguardTeam/AdGuardHome/internal/stats.StatsCtx).openDB vxC05SOpenDB
 
 import (
+	"context"
+	"encoding/json"
 	"log/slog"
+	"net/http"
 	"net/netip"
 	"sync"
 	"time"
 
+	"github.com/AdguardTeam/AdGuardHome/internal/aghalg"
 	"github.com/AdguardTeam/AdGuardHome/internal/aghnet"
 	"github.com/AdguardTeam/AdGuardHome/internal/vx"
 	"github.com/miekg/dns"
 )
 
 func vxC05IgnoreHas(e *aghnet.IgnoreEngine, host string) bool { return false }
+
+// vxC05SJSONDecode stands for the JSON decoder of the admin API: a fixed valid
+// configuration request (the old API switches statistics off, which also
+// clears them).
+func vxC05SJSONDecode(dec *json.Decoder, v any) error {
+	switch r := v.(type) {
+	case *getConfigResp:
+		r.Interval = 86_400_000
+		r.Enabled = aghalg.NBTrue
+	case *configResp:
+		r.IntervalDays = 0
+	}
+	return nil
+}
+
+func vxC05SWriteJSON(w http.ResponseWriter, r *http.Request, code int, resp any) {}
+func vxC05SNewIgnore(ignored []string) (*aghnet.IgnoreEngine, error)        { return &aghnet.IgnoreEngine{}, nil }
+func vxC05SRemove(name string) error                                        { return nil }
+func vxC05SOpenDB(s *StatsCtx) error                                        { return nil }
+
+type vxC05SWriter struct{ h http.Header }
+
+func (w *vxC05SWriter) Header() http.Header         { return w.h }
+func (w *vxC05SWriter) Write(b []byte) (int, error) { return len(b), nil }
+func (w *vxC05SWriter) WriteHeader(code int)        {}
 
 func vxC05Stats() {
 	s := &StatsCtx{
@@ -33,14 +67,31 @@ func vxC05Stats() {
 		enabled:           true,
 		curr:              newUnit(1),
 		unitIDGen:         func() uint32 { return 1 },
-		configModified:    func() {},
+	}
+	s.configModified = func() {
+		saved := Config{}
+		s.WriteDiskConfig(&saved)
 	}
 	vx.Guard(&s.curr, s.currMu, "stats.StatsCtx.curr")
 	vx.Guard(&s.ignored, s.confMu, "stats.StatsCtx.ignored")
 	vx.Guard(&s.limit, s.confMu, "stats.StatsCtx.limit")
 	vx.Guard(&s.enabled, s.confMu, "stats.StatsCtx.enabled")
 
-	switch vx.Choice("op", 5) {
+	w := &vxC05SWriter{h: http.Header{}}
+	r := (&http.Request{Method: http.MethodPut, Header: http.Header{"Content-Type": {"application/json"}}, Body: http.NoBody}).WithContext(context.Background())
+	switch vx.Choice("op", 11) {
+	case 5: // admin: new configuration API
+		s.handlePutStatsConfig(w, r)
+	case 6: // admin: old configuration API, switching statistics off
+		s.handleStatsConfig(w, r)
+	case 7: // admin: read the configuration
+		s.handleGetStatsConfig(w, r)
+	case 8:
+		s.handleStatsInfo(w, r)
+	case 9: // admin: reset
+		s.handleStatsReset(w, r)
+	case 10: // API: the statistics themselves
+		s.handleStats(w, r)
 	case 0: // request path
 		s.ShouldCount("example.org", dns.TypeA, dns.ClassINET, []string{"1.2.3.4"})
 	case 1: // request path
